@@ -614,17 +614,32 @@ func scenarios(cfg *mc.Config, emit func(mc.Scenario)) {
 				if split == 0 && total <= 255 {
 					// whole string in the username, NUL password
 				}
-				m1 := []byte{5, 1, 2}
-				m2 := userPass(s, split)
-				m3 := target{1, []byte{1, 2, 3, 4}, 443}.encode()
-				e := decode(m1, m2, m3)
-				if e.err != "" {
-					panic("reference rejects its own encoding")
-				}
-				runCase(c, m1, m2, m3, delivery{trunc: -1}, e, fmt.Sprintf("argument string of %d bytes split at %d", total, split), "spill")
-				n++
-				if c.Failed() {
-					return
+				// the byte the password field starts with (and the one the username
+				// ends with): as encoded ('A'), and NUL / 0xff / 0x01 -- values are
+				// arbitrary 8-bit strings, only a password that IS one NUL means "empty"
+				for _, edge := range []int{-1, 0x00, 0xff, 0x01} {
+					sv := s
+					if edge >= 0 {
+						if split == 0 || split >= total-len(";iat-mode=1") || split < len("cert=")+1 {
+							continue
+						}
+						bs := []byte(s)
+						bs[split] = byte(edge)
+						bs[split-1] = byte(edge)
+						sv = string(bs)
+					}
+					m1 := []byte{5, 1, 2}
+					m2 := userPass(sv, split)
+					m3 := target{1, []byte{1, 2, 3, 4}, 443}.encode()
+					e := decode(m1, m2, m3)
+					if e.err != "" {
+						panic("reference rejects its own encoding")
+					}
+					runCase(c, m1, m2, m3, delivery{trunc: -1}, e, fmt.Sprintf("argument string of %d bytes split at %d (bytes %#x around the split)", total, split, edge), "spill")
+					n++
+					if c.Failed() {
+						return
+					}
 				}
 			}
 		}
